@@ -194,6 +194,38 @@ def oracle_shift(x, pos):
     return np.fft.ifft2(np.fft.fft2(x)[None] * ramp)
 
 
+def oracle_wavelength(E):
+    """relativistic electron wavelength in Angstrom (independent float64 evaluation, same constants as utils.py)"""
+    import math
+    m, e, c, h = 9.109383e-31, 1.602177e-19, 299792458.0, 6.62607e-34
+    return h / math.sqrt(2 * m * e * E * (1 + e * E / (2 * m * c * c))) * 1e10
+
+
+def oracle_propagator(nr, nc, sr, sc, energy, dz, thr, thc):
+    """independent float64 Fresnel kernel  exp(-i pi lam dz |k|^2) * exp(-2 pi i dz (k_r tan(theta_r) + k_c tan(theta_c))),
+    theta in mrad, k = fftfreq(n, sampling): the tilt term is ODD in k, so evaluating the kernel at -k is visible"""
+    kr, kc = np.fft.fftfreq(nr, sr)[:, None], np.fft.fftfreq(nc, sc)[None, :]
+    lam = oracle_wavelength(energy)
+    return (np.exp(-1j * np.pi * lam * dz * (kr ** 2 + kc ** 2))
+            * np.exp(-2j * np.pi * dz * (kr * np.tan(thr / 1e3) + kc * np.tan(thc / 1e3))))
+
+
+def oracle_propagate(a, K):
+    """independent propagation: ifft2(fft2(a) * K) with NumPy's FFT"""
+    return np.fft.ifft2(np.fft.fft2(np.asarray(a, dtype=np.complex128)) * K)
+
+
+def propagate_entry_points(I, ctx):
+    """every entry point of the propagation operator in the anchored files"""
+    eps = {"PtychographyBase._propagate_array": lambda a, q: I.Base._propagate_array(None, a, q),
+           "ObjectBase._propagate_array": lambda a, q: I.Obj._propagate_array(None, a, q)}
+    p = real_instance(ctx, 1)
+    if p is not None:
+        eps["Ptychography()._propagate_array"] = p._propagate_array
+        eps["ObjectPixelated()._propagate_array"] = p.obj_model._propagate_array
+    return eps
+
+
 def T(I, a, dtype=None):
     return I.torch.tensor(np.asarray(a), dtype=dtype)
 
@@ -212,7 +244,11 @@ class Borrow:
         over = object.__getattribute__(self, "_over")
         if name in over:
             return over[name]
-        return getattr(object.__getattribute__(self, "_real"), name)
+        real = object.__getattribute__(self, "_real")
+        v = getattr(real, name)
+        if getattr(v, "__self__", None) is real and hasattr(v, "__func__"):
+            return types.MethodType(v.__func__, self)      # methods see the overrides too
+        return v
 
 
 class StubInsufficient(Exception):
@@ -603,16 +639,38 @@ def s_prop(ctx, drv, I, case):
     pred(ctx, "prop-unit-modulus", "|propagator| != 1 for real dz", case, np.abs(Q), np.ones_like(Q.real), 1e-5, "|propagator|=1 (complex64)")
     pred(ctx, "prop-kernel-additive", "P(d1)*P(d2) != P(d1+d2)", case, Q[0] * Q[1], Q[2], TOL32, "propagator additivity (complex64)")
     pred(ctx, "prop-kernel-inverse", "P(d)*P(-d) != 1", case, Q[0] * Q[3], np.ones_like(Q[0]), TOL32, "propagator inverse (complex64)")
+    # every kernel (tilted / untilted, dz > 0 and dz < 0) against the independent float64 kernel, through both kernel entry points
+    OK = np.stack([oracle_propagator(nr, nc, sr, sc, energy, d, thr, thc) for d in dl])
+    pred(ctx, "prop-kernel-oracle:ProbeBase._compute_propagator_arrays", "propagator != independent Fresnel kernel (incl. tilt term, negative dz)", case, Q, OK, TOL32, "propagator vs oracle kernel")
+    pinst = real_instance(ctx, 1)
+    if pinst is not None:      # PtychographyBase.compute_propagator_arrays: the instance-level entry point
+        bself = Borrow(pinst, probe_model=probe_self(I, ctx, (nr, nc), energy, (thr, thc)), sampling=np.array([sr, sc]), num_slices=5,
+                       slice_thicknesses=np.asarray(dl, dtype=np.float64))
+        I.Base.compute_propagator_arrays(bself)
+        Q2 = np.asarray(bself.propagators).astype(np.complex128)
+        pred(ctx, "prop-kernel-oracle:PtychographyBase.compute_propagator_arrays", "instance-level propagators != independent Fresnel kernel", case, Q2, OK, TOL32, "propagator vs oracle kernel (instance entry)")
     # propagation of arrays with the real kernels
     M, B = rng.randint(1, 2), rng.randint(1, 2)
     a = carr(rng, (M, B, nr, nc))
     at = T(I, a, torch.complex128)
     Qt = [T(I, Q[s], torch.complex128) for s in range(4)]
+    # every entry point of the propagation operator against the independent ifft2(fft2(a)*K), for P(d) and P(-d)
+    eps = propagate_entry_points(I, ctx)
+    fwd = {}
+    for name, f in eps.items():
+        for s_, lab in ((0, "d"), (3, "-d")):
+            out = f(at.clone(), Qt[s_].clone()).numpy()
+            pred(ctx, f"propagate-oracle:{name}", f"{name}(a, P({lab})) != independent ifft2(fft2(a)*P)", case, out, oracle_propagate(a, Q[s_]), TOL64, "propagate entry points vs oracle")
+            if s_ == 0:
+                fwd[name] = out
+    names = sorted(eps)
+    for n1 in names:          # P(d) through one entry point, P(-d) through another = identity
+        for n2 in names:
+            if n1 != n2:
+                back_ = eps[n2](T(I, fwd[n1], torch.complex128), Qt[3].clone()).numpy()
+                pred(ctx, f"propagate-cross-inverse:{n2}", f"{n2}({n1}(a, P(d)), P(-d)) != a", case, back_, a, TOL32, "cross-entry-point inverse propagation")
+    ctx.dist[f"prop.entry_points={len(eps)}"] += 1
     p1 = I.Base._propagate_array(None, at, Qt[0])
-    p1o = I.Obj._propagate_array(None, at, Qt[0])
-    if not torch.equal(p1, p1o):
-        ctx.disagree("propagate", case, {"max": maxabs(p1.numpy())}, {"max": maxabs(p1o.numpy())},
-                     "PtychographyBase._propagate_array != ObjectBase._propagate_array (first is reported as model)")
     p1n = p1.numpy()
     for m_ in range(M):
         for b in range(B):
@@ -695,6 +753,22 @@ def s_forward(ctx, drv, I, case):
                 corr(ctx, "overlap-projection", case, dec_img(r["prop"][m_][s]), ppn[s, m_, b], TOL64, note=f"propagated probe slice {s}")
         md = dec_rows(ask(drv, {"op": "detector", "waves": [enc_img(on[m_, b]) for m_ in range(M)]})["ok"])
         corr(ctx, "detector", case, md, inn[b], TOL64)
+    # --- independent multislice oracle (NumPy loop, the implementation's own complex64 kernels)
+    ex = pn[0][None] * sn
+    for s_ in range(1, S):
+        ex = pn[s_][None] * oracle_propagate(ex, propsn[s_ - 1])
+    pred(ctx, "overlap-oracle", "overlap_projection exit wave != independent multislice loop", case, on, ex, TOL64, "exit wave vs oracle multislice")
+    # --- ObjectPixelated.backward (the object-model entry point of the propagation operator): for pure-phase patches
+    #     back-transmitting / back-propagating the exit wave must return the entrance wave (the shifted probes)
+    pobj = real_instance(ctx, 1)
+    if purephase and pobj is not None:
+        oself = Borrow(pobj.obj_model, _obj=torch.nn.Parameter(torch.zeros((S, H, W), dtype=torch.complex128)), num_slices=S, obj_type="complex")
+        oself._over["_propagate_array"] = lambda a_, q_: I.Obj._propagate_array(oself, a_, q_)
+        from quantem.diffractive_imaging.object_models import ObjectPixelated
+        back_ = ObjectPixelated.backward(oself, overlap.clone(), patches.clone(), pp.clone(), props.clone() if S > 1 else props, T(I, idx, torch.int64))
+        pred(ctx, f"backward-identity:S{'1' if S == 1 else 'n'}", "ObjectPixelated.backward(exit wave) != entrance wave (pure-phase object: forward then backward is the identity)", case,
+             back_.numpy(), sn, TOL64 if S == 1 else TOL32, "forward-then-backward identity")
+        ctx.dist["forward.backward_identity_checked"] += 1
     # --- predicates
     tot_exit = np.sum(np.abs(on) ** 2, axis=(0, 2, 3))
     pred(ctx, f"detector-parseval:{psig(nr, nc)}", "summed detector intensity != total exit-wave intensity", case, inn.sum(axis=(1, 2)), tot_exit, TOL64, "detector Parseval")
